@@ -510,6 +510,42 @@ func (ch c02) Run(c *core.Ctx) {
 			strict(conn, "rows produced slowly for a client that reads slowly", map[string]any{"workload": "slow rows, slow reader", "round": round})
 		}
 	}
+	// (m) rows given up half-way (a value in the second or a later column cannot be encoded) by a handler that
+	// carries on and writes nothing more, or something else; the client sends Flush messages right behind the
+	// Execute, then executes again: whatever was begun and given up never reaches the wire
+	if c.Batch == 7%ch.Batches(c.Tier) && c.Begin(3960000) {
+		bad := func(n, at int) hs.Op {
+			vals := make([]any, n)
+			for i := range vals {
+				vals[i] = fmt.Sprintf("v%d", i)
+			}
+			vals[at] = make(chan int)
+			return hs.Op{K: "badrow", Vals: vals}
+		}
+		good := hs.Op{K: "row", Vals: []any{"a", "b", "c"}}
+		done := hs.Op{K: "complete", Tag: "SELECT 1"}
+		for v, ops := range [][]hs.Op{{bad(3, 1)}, {bad(3, 2)}, {good, bad(3, 2)}, {bad(3, 1), bad(3, 2)}, {bad(3, 2), good}, {bad(3, 1), done}, {good, bad(3, 1), hs.Op{K: "empty"}}} {
+			sess := &hs.Sess{Progs: map[string]*hs.Prog{
+				"g": {Stmts: []*hs.Stmt{{ID: "g", Cols: textCols(3), Ops: ops}}},
+				"p": {Stmts: []*hs.Stmt{{ID: "p", Cols: textCols(1), Ops: []hs.Op{{K: "row", Vals: []any{"p"}}, done}}}}}}
+			conn := env.Dial(sess)
+			in := append(pg.Startup([][2]string{{"user", "u"}}), pg.Parse("s", "g", nil)...)
+			in = append(append(in, pg.Bind("", "s", nil, nil, []int16{int16(v % 2)})...), pg.Execute("", 0)...)
+			in = append(append(in, pg.Flush()...), pg.Flush()...)
+			in = append(append(in, pg.Bind("", "s", nil, nil, nil)...), pg.Execute("", 0)...)
+			in = append(append(append(in, pg.Flush()...), pg.Sync()...), pg.Query("p")...)
+			in = append(append(in, pg.Query("g")...), pg.Terminate()...)
+			conn.Send(in)
+			conn.CloseWrite()
+			if !conn.WaitClosed() {
+				c.Inconclusive("connection did not close (C02 given-up rows workload)")
+				return
+			}
+			c.Count("flushes_behind_rows_given_up_half_way", 3)
+			c.Eval(fmt.Sprintf("given-up rows then flush %d", v), true)
+			strict(conn, fmt.Sprintf("Flush messages behind an Execute whose handler gave a row up half-way (variant %d)", v), map[string]any{"workload": "given-up rows, flush", "variant": v})
+		}
+	}
 	// (l) the embedding program gives every session a context of its own (session middleware) and ends it
 	// while the k-th transport Write of the session is under way, for every k: rows of a few bytes, of 70 KB
 	// and of 200 KB (larger than anything a writer may want to hand over in one piece), simple and extended.
